@@ -31,10 +31,18 @@ const (
 	bB
 	bAp
 	bAr
+	// further members of the total-sibling family of A: total + 256, + 255, + 65536, + 2^24, + 2^31
+	// (a key, an equality or sign bytes that narrow the uint32 total or treat it modulo something
+	// collapse some of them onto A)
+	bA256
+	bA255
+	bA64k
+	bA16m
+	bA2g
 	nBlk
 )
 
-var blkName = [nBlk]string{"nil", "A", "B", "A'", "A^"}
+var blkName = [nBlk]string{"nil", "A", "B", "A'", "A^", "A+256", "A+255", "A+64k", "A+2^24", "A+2^31"}
 
 func fill(b byte) (h [32]byte) {
 	for i := range h {
@@ -49,6 +57,11 @@ var refIDs = [nBlk]refBlockID{
 	{Hash: fill(0xb1), PartsHash: fill(0xa2), Total: 3},
 	{Hash: fill(0xa1), PartsHash: fill(0xa2), Total: 4},
 	{Hash: fill(0xa1), PartsHash: fill(0xa3), Total: 3},
+	{Hash: fill(0xa1), PartsHash: fill(0xa2), Total: 3 + 256},
+	{Hash: fill(0xa1), PartsHash: fill(0xa2), Total: 3 + 255},
+	{Hash: fill(0xa1), PartsHash: fill(0xa2), Total: 3 + 65536},
+	{Hash: fill(0xa1), PartsHash: fill(0xa2), Total: 3 + 1<<24},
+	{Hash: fill(0xa1), PartsHash: fill(0xa2), Total: 3 + 1<<31},
 }
 
 func repoID(id refBlockID) types.BlockID {
@@ -253,7 +266,8 @@ var validKinds = []struct {
 	kind    string
 	blk     int
 	variant int
-}{{"A", bA, 0}, {"B", bB, 0}, {"A'", bAp, 0}, {"nil", bNil, 0}, {"A~", bA, 1}, {"A^", bAr, 0}}
+}{{"A", bA, 0}, {"B", bB, 0}, {"A'", bAp, 0}, {"nil", bNil, 0}, {"A~", bA, 1}, {"A^", bAr, 0},
+	{"A+256", bA256, 0}, {"A+255", bA255, 0}, {"A+64k", bA64k, 0}, {"A+2^24", bA16m, 0}, {"A+2^31", bA2g, 0}}
 
 var invalidKinds = []string{"!oob", "!mis", "!imp", "!out", "!fake", "!h", "!r", "!t", "!chain", "!sig", "!64"}
 
